@@ -10,6 +10,8 @@ SPEC  CrdtPinsetBatchMC  batching layer of consensus/crdt (queue, batchWorker, t
 GEN   batching scripts (behaviours of the specification simulated by TLC - CrdtPinsetBatchGen; seeded: disabled / size / age / queue smaller than burst / injected commit failures, plus
       targeted ones) and multi-replica scripts (TLC counterexamples, the design-phase history, seeded histories).
 R     scripts run on real crdt.Consensus replicas (harness datastore with fault injection, harness PinTracker).
+T     the repository's own consensus/crdt tests run with the verif tag; their recorded batching events are judged
+      by CrdtPinsetTrace per Consensus instance (with a self-test of the binding on corrupted copies).
 V     CrdtPinsetTrace / CrdtPinsetNetTrace: TLC evaluates the property predicates on the recorded lines and
       checks conformance to the transcription (inferring channel / timer / delivery steps).
 """
@@ -457,6 +459,117 @@ def run_net(ctx, scripts, par=8):
         raise vcheck.Infra("specification out of date w.r.t. go-ds-crdt / consensus/crdt (no property breach observed)")
 
 
+REPO_TESTS = "TestBatching|TestConsensusPin|TestConsensusUnpin|TestConsensusUpdate"
+
+
+def run_repo_tests(ctx):
+    """Executions of the repository's OWN consensus/crdt tests become validated traces: the tests run with the
+    verif tag and VERIF_TRACE_FILE (default observer of consensus/crdt/verif_on.go), the events are split per
+    Consensus instance and TLC evaluates the batching predicates that need no driver knowledge (CommitBad) and the
+    counter consistency CurDrift of CrdtPinsetTrace on every instance. The binding is self-tested on corrupted copies."""
+    import subprocess
+    import time
+    raw = os.path.join(ctx.work, "c02_repo.raw")
+    env = ctx.goenv()
+    env["VERIF_TRACE_FILE"] = raw
+    cmd = ["go", "test", "-modfile=" + ctx.modfile(), "-tags", "verif", "-count=1", "-vet=off", "-timeout", "600s",
+           "-run", REPO_TESTS, "github.com/ipfs/ipfs-cluster/consensus/crdt"]
+    t0 = time.time()
+    try:
+        cp = subprocess.run(cmd, cwd=os.path.join(ctx.verif, "harness"), env=env, stdout=subprocess.PIPE,
+                            stderr=subprocess.STDOUT, timeout=900)
+    except subprocess.TimeoutExpired:
+        raise vcheck.Infra("repository consensus/crdt tests timed out")
+    ctx.log("go test consensus/crdt (repository tests, tag verif): rc=%d %.1fs" % (cp.returncode, time.time() - t0))
+    if cp.returncode != 0:
+        print(cp.stdout.decode("utf-8", "replace")[-3000:])
+        raise vcheck.Infra("the repository's own consensus/crdt tests failed (rc=%d): no trace to validate" % cp.returncode)
+    if not os.path.exists(raw) or os.path.getsize(raw) == 0:
+        raise vcheck.Infra("no events recorded: consensus/crdt has no VERIF_TRACE_FILE observer (branch verif-crdt3 not applied?)")
+    evs = [json.loads(l) for l in open(raw)]
+    order, by = [], {}
+    for e in evs:
+        p = e.get("peer", "?")
+        if p not in by:
+            by[p] = []
+            order.append(p)
+        by[p].append(e)
+    runs = []
+    for n, p in enumerate(order):
+        w = [e for e in by[p] if e["ev"] == "worker"]
+        hdr = {"ev": "reset", "run": n + 1, "kind": "repo", "class": "repo-test", "batching": bool(w),
+               "maxsize": w[0]["maxsize"] if w else 0, "maxage_ms": w[0]["maxage_ms"] if w else 0,
+               "maxq": w[0]["maxq"] if w else 1}
+        ls = []
+        for e in by[p]:
+            if e["ev"] == "logcall":
+                ls.append({"ev": "call", "op": e["op"], "c": e["cid"], "v": "A" if e["op"] == "pin" else "-", "t": e["t"]})
+            elif e["ev"] in ("batched", "batcherr"):
+                ls.append({"ev": e["ev"], "op": "pin" if e.get("pin") else "unpin", "c": e.get("cid", ""), "cur": e["cur"], "t": e["t"]})
+            elif e["ev"] == "commit":
+                ls.append({"ev": "commit", "reason": e["reason"], "cur": e["cur"], "ok": e["ok"], "t": e["t"]})
+            elif e["ev"] == "shutdown":
+                ls.append({"ev": "shutdown", "t": e["t"]})
+        runs.append((hdr, ls))
+    nreal = len(runs)
+    nb = [k for k, (h, ls) in enumerate(runs) if h["batching"]]
+    if not nb or not any(l["ev"] == "commit" and l["reason"] == "size" for k in nb for l in runs[k][1]) or \
+            not any(l["ev"] == "commit" and l["reason"] == "age" for k in nb for l in runs[k][1]):
+        raise vcheck.Infra("the repository tests no longer exercise a size-triggered and an age-triggered batch commit")
+    # self-test of the binding: a corrupted field and a dropped commit event must be rejected
+    corrupt = []
+    for k in nb:
+        h, ls = runs[k]
+        js = [j for j, l in enumerate(ls) if l["ev"] == "commit" and l["reason"] == "size" and l["ok"]]
+        if js and not any(c[0] == "field" for c in corrupt):
+            c = [dict(l) for l in ls]
+            c[js[0]]["cur"] -= 1
+            corrupt.append(("field", dict(h), c))
+        js = [j for j, l in enumerate(ls) if l["ev"] == "commit" and l["ok"] and any(m["ev"] == "batched" for m in ls[j + 1:])]
+        if js and not any(c[0] == "drop" for c in corrupt):
+            corrupt.append(("drop", dict(h), [dict(l) for j, l in enumerate(ls) if j != js[0]]))
+    if {c[0] for c in corrupt} != {"field", "drop"}:
+        raise vcheck.Infra("cannot build the corrupted traces for the binding self-test")
+    for n, (kind, h, ls) in enumerate(corrupt):
+        h["run"] = 9001 + n
+        runs.append((h, ls))
+    trace = os.path.join(ctx.work, "c02_repo.trace")
+    with open(trace, "w") as f:
+        for h, ls in runs:
+            f.write(json.dumps(h) + "\n")
+            for l in ls:
+                f.write(json.dumps(l) + "\n")
+    v = tlc_verdict(ctx, "CrdtPinsetTrace.tla", "CrdtPinsetTrace.cfg", trace, "repo")
+    if v["n"] != len(runs):
+        raise vcheck.Infra("repo traces: %d runs judged for %d written" % (v["n"], len(runs)))
+    lines = [json.loads(l) for l in open(trace)]
+    for n, (kind, h, ls) in enumerate(corrupt):
+        rv = v["runs"][nreal + n]
+        if not (rv["commit"] or rv["curdrift"]):
+            raise vcheck.Infra("binding self-test failed: the corrupted repository trace (%s) was accepted" % kind)
+    good, drift = 0, []
+    for k in range(nreal):
+        rv = v["runs"][k]
+        if rv["commit"]:
+            ln = sorted(rv["commit"])[0]
+            ctx.violation("C02:repo-test:commit", "execution of the repository's own consensus/crdt tests: batch not committed "
+                          "at its size limit, committed before its age limit, grown beyond the limit or left uncommitted "
+                          "(maxsize=%s maxage_ms=%s; line %s)" % (runs[k][0]["maxsize"], runs[k][0]["maxage_ms"], json.dumps(lines[ln - 1])),
+                          {"kind": "repo", "tests": REPO_TESTS, "lines": lines[rv["first"] - 1:rv["last"]]})
+        elif rv["curdrift"]:
+            drift.append(lines[sorted(rv["curdrift"])[0] - 1])
+        else:
+            good += 1
+    ctx.traces_validated += good
+    ctx.extra["repo_test_instances_validated"] = good
+    ctx.extra["repo_test_events"] = len(evs)
+    ctx.extra["repo_binding_selftest"] = "corrupted field and dropped commit event both rejected"
+    if drift and not ctx.violations:
+        print("SPEC-DRIFT: %d instances of the repository tests do not follow the batchCurSize arithmetic of "
+              "CrdtPinsetBatch; first: %s" % (len(drift), json.dumps(drift[0])), flush=True)
+        raise vcheck.Infra("specification out of date w.r.t. consensus/crdt batchWorker (repository test traces)")
+
+
 def counterexample_hist(r):
     m = list(re.finditer(r'^/\\ hist = (.*?)(?=^/\\ |\Z)', r.out, re.M | re.S))
     if not m:
@@ -516,6 +629,7 @@ def run(ctx):
     ctx.log("generated %d batching scripts, %d multi-replica scripts" % (len(batch), len(net)))
     # ---- R + V
     try:
+        run_repo_tests(ctx)
         run_batch(ctx, batch, par=8 if quick else 12)
         try:
             run_net(ctx, net, par=8 if quick else 12)
@@ -533,6 +647,8 @@ def replay(ctx, path):
     j = json.load(open(path))
     case = j.get("case") or {}
     s = dict(case.get("script") or {})
+    if case.get("kind") == "repo":
+        return run_repo_tests(ctx)
     if not s:
         # a crash of the driver process has no single script: repeat the whole run with the stored seed and tier
         ctx.seed = j.get("seed", ctx.seed)
